@@ -37,8 +37,8 @@ LEVEL_NOTE = "Trusted: the per-class reference; every history starts from a pris
 SHRINK_LISTS = ["ops", "classes"]
 
 
-class P0(Component):
-    pass
+class P0(__import__("props.common", fromlist=["x"]).ChaosMixin, Component):
+    """A component class with special methods of its own (callable, iterable, ordered, falsy, odd repr ...)."""
 
 
 class P1(P0):           # a subclass of P0: stores are keyed by the exact class (carrying P1 is not carrying P0)
